@@ -12,20 +12,31 @@
 (* except for the explicitly modelled "echo" (the terminal's own key sent      *)
 (* back).                                                                     *)
 (***************************************************************************)
-EXTENDS Integers, FiniteSets
+EXTENDS Integers, FiniteSets, Sequences
 
 Mappings == {"GM", "CAM"}
-Devs == {"none", "password", "nonce", "mapkey", "mapkey-echo", "kakey", "kakey-echo", "reflect", "token", "ecad", "ecad-absent",
+Devs == {"none", "password", "nonce", "mapkey", "mapkey-echo", "kakey", "kakey-echo", "reflect", "token", "token-echo", "ecad", "ecad-absent",
          "sw-mse", "sw-nonce", "sw-map", "sw-ka", "sw-token", "cardsec-key"}
+\* A run has up to TWO deviations (dev, dev2): coordinated alterations of two messages are where single-message
+\* reasoning breaks down - "reflect" is nothing but the pair {kakey-echo, token-echo}, and TLC finds it among the pairs.
+DevSeq == << "password", "nonce", "mapkey", "mapkey-echo", "kakey", "kakey-echo", "token", "token-echo", "ecad", "ecad-absent",
+             "sw-mse", "sw-nonce", "sw-map", "sw-ka", "sw-token", "cardsec-key" >>
+Pos(x) == CHOOSE i \in 1..Len(DevSeq) : DevSeq[i] = x
+SameMessage == {{"mapkey", "mapkey-echo"}, {"kakey", "kakey-echo"}, {"token", "token-echo"}, {"ecad", "ecad-absent"}}
+Compatible(a, b) == /\ a \in {DevSeq[i] : i \in 1..Len(DevSeq)} /\ b \in {DevSeq[i] : i \in 1..Len(DevSeq)}
+                    /\ Pos(a) < Pos(b) /\ {a, b} \notin SameMessage
 \* "reflect": a counterpart that knows NO password: it relays the nonce / mapping steps of a chip (or makes them up),
 \* sends the terminal's own key agreement key back and then the terminal's own token T_IFD as T_IC. With
 \* PK_IC = PK_IFD both tokens are MACs of the same key over the same point, so only the comparison of the two public
 \* keys (Doc 9303-11 4.4.1 d) stands between it and success.  EchoCheck = FALSE is the design without that comparison.
 CONSTANT EchoCheck
 
-VARIABLES mapping, dev, done, termResult, camResult, termSM, chipSM, chipCompleted, chipCamGenuine
+VARIABLES mapping, dev, dev2, done, termResult, camResult, termSM, chipSM, chipCompleted, chipCamGenuine
 
-vars == << mapping, dev, done, termResult, camResult, termSM, chipSM, chipCompleted, chipCamGenuine >>
+vars == << mapping, dev, dev2, done, termResult, camResult, termSM, chipSM, chipCompleted, chipCamGenuine >>
+\* the set of deviations of this run
+D == ({dev, dev2} \ {"none", "reflect"}) \cup (IF "reflect" \in {dev, dev2} THEN {"kakey-echo", "token-echo"} ELSE {})
+Has(x) == x \in D
 
 \* uniform shapes (TLC cannot compare a string with a record):
 \*   generator [nonce : STRING, h : set of scalars]   (the base generator is ["-", {}])
@@ -46,12 +57,12 @@ mapT == "mapT" mapC == "mapC" kaT == "kaT" kaC == "kaC" adv == "adv" skIC == "sk
 Nonce == "s"
 
 \* what the terminal decrypts as nonce: the chip's nonce iff same password and z unaltered
-TermNonce == IF dev \in {"password", "nonce"} THEN "s-other" ELSE Nonce
+TermNonce == IF Has("password") \/ Has("nonce") THEN "s-other" ELSE Nonce
 
 \* the chip's mapping public key as received by the terminal
 PubMapC_chip == Pt(G, {mapC})
-PubMapC_term == CASE dev = "mapkey" -> Pt(G, {adv})
-                  [] dev = "mapkey-echo" -> Pt(G, {mapT})
+PubMapC_term == CASE Has("mapkey") -> Pt(G, {adv})
+                  [] Has("mapkey-echo") -> Pt(G, {mapT})
                   [] OTHER -> PubMapC_chip
 
 \* mapped generators on both sides
@@ -60,8 +71,8 @@ Gterm == MapGen(TermNonce, DH(mapT, PubMapC_term))
 
 PubKaT == Pt(Gterm, {kaT})                                 \* terminal's key agreement key (on ITS generator)
 PubKaC_chip == Pt(Gchip, {kaC})
-PubKaC_term == CASE dev = "kakey" -> Pt(Gchip, {adv})
-                 [] dev \in {"kakey-echo", "reflect"} -> PubKaT
+PubKaC_term == CASE Has("kakey") -> Pt(Gchip, {adv})
+                 [] Has("kakey-echo") -> PubKaT
                  [] OTHER -> PubKaC_chip
 
 Kterm == DH(kaT, PubKaC_term)
@@ -71,7 +82,7 @@ Kchip == IF Gterm = Gchip THEN DH(kaC, Pt(Gchip, {kaT})) ELSE Pt(Gen("mismatch",
 \* tokens: T_IFD = MAC(KSmac, PK_DH,IC) ; T_IC = MAC(KSmac, PK_DH,IFD)
 TIFD == Mac(Keys(Kterm), PubKaC_term)
 TIC_chip == Mac(Keys(Kchip), PubKaT)
-TIC_term == IF dev = "token" THEN Mac(JunkKeys, PubKaT) ELSE IF dev = "reflect" THEN TIFD ELSE TIC_chip
+TIC_term == IF Has("token") THEN Mac(JunkKeys, PubKaT) ELSE IF Has("token-echo") THEN TIFD ELSE TIC_chip
 
 \* the chip accepts the terminal's token iff it is the MAC under ITS keys over ITS public key
 ChipAcceptsToken == TIFD = Mac(Keys(Kchip), PubKaC_chip)
@@ -79,23 +90,24 @@ ChipAcceptsToken == TIFD = Mac(Keys(Kchip), PubKaC_chip)
 \* terminal-side checks that abort before the token exchange
 EchoDetected == EchoCheck /\ (PubMapC_term = Pt(G, {mapT}) \/ PubKaC_term = PubKaT)
 
-StatusError == dev \in {"sw-mse", "sw-nonce", "sw-map", "sw-ka", "sw-token"}
+StatusError == D \cap {"sw-mse", "sw-nonce", "sw-map", "sw-ka", "sw-token"} # {}
 
 \* chip authentication data: CA_IC with CA_IC * PK_IC = PK_Map,IC ; encrypted under KSenc
 \* the terminal recovers it iff the cryptogram is intact, and checks it against the key in CardSecurity
 \* ("ecad-absent": a counterpart that knows the password but not the static private key simply leaves the object out)
-CamOK == /\ mapping = "CAM" /\ dev \notin {"ecad", "ecad-absent"}
-         /\ dev # "cardsec-key"                             \* CardSecurity publishes another key than the chip used
+CamOK == /\ mapping = "CAM" /\ D \cap {"ecad", "ecad-absent"} = {}
+         /\ ~Has("cardsec-key")                            \* CardSecurity publishes another key than the chip used
 
 Init == /\ mapping \in Mappings /\ dev \in Devs
-        /\ (dev \in {"ecad", "ecad-absent", "cardsec-key"} => mapping = "CAM")
+        /\ (dev2 = "none" \/ (dev2 \in Devs /\ Compatible(dev, dev2)))
+        /\ (D \cap {"ecad", "ecad-absent", "cardsec-key"} # {} => mapping = "CAM")
         /\ done = FALSE /\ termResult = "none" /\ camResult = "none" /\ termSM = NoKeys /\ chipSM = NoKeys
         /\ chipCompleted = FALSE /\ chipCamGenuine = FALSE
 
 Run == /\ ~done /\ done' = TRUE
        /\ LET tokenPhase == ~StatusError /\ ~EchoDetected
               chipOK == tokenPhase /\ ChipAcceptsToken                      \* else the chip answers 6300 to T_IFD
-              answered == IF dev = "reflect" THEN tokenPhase ELSE chipOK       \* the reflecting counterpart answers 9000 itself
+              answered == IF Has("token-echo") THEN tokenPhase ELSE chipOK     \* a counterpart that echoes the token answers 9000 itself
               termOK == answered /\ TIC_term = Mac(Keys(Kterm), PubKaT)
           IN /\ chipCompleted' = chipOK
              /\ chipSM' = IF chipOK THEN Keys(Kchip) ELSE NoKeys
@@ -105,19 +117,19 @@ Run == /\ ~done /\ done' = TRUE
                 ELSE IF mapping = "GM" THEN termResult' = "success" /\ camResult' = "none"
                 ELSE IF CamOK THEN termResult' = "success" /\ camResult' = "success"
                 ELSE termResult' = "failure" /\ camResult' = "none"           \* as built: PACE reported failed, session stays
-       /\ UNCHANGED << mapping, dev >>
+       /\ UNCHANGED << mapping, dev, dev2 >>
 
 Next == Run \/ (done /\ UNCHANGED vars)
 
 \* ---- properties ------------------------------------------------------------------------------
 \* (a) no deviation: success, both sides hold the same session keys
-Completeness == (done /\ dev = "none") => (termResult = "success" /\ chipCompleted /\ termSM = chipSM /\ termSM # NoKeys
+Completeness == (done /\ D = {}) => (termResult = "success" /\ chipCompleted /\ termSM = chipSM /\ termSM # NoKeys
                                            /\ (mapping = "CAM" => camResult = "success"))
 \* (b) different password or an altered nonce / mapping key / agreement key / token: failure, no session
-FailClosed == (done /\ dev \in {"password", "nonce", "mapkey", "mapkey-echo", "kakey", "kakey-echo", "reflect", "token"}) =>
+FailClosed == (done /\ D \cap {"password", "nonce", "mapkey", "mapkey-echo", "kakey", "kakey-echo", "token", "token-echo"} # {}) =>
                  (termResult = "failure" /\ termSM = NoKeys /\ camResult # "success")
 \* (c) only the encrypted chip authentication data altered (or a foreign key published): CAM not successful
-CamGated == (done /\ dev \in {"ecad", "ecad-absent", "cardsec-key"}) => camResult # "success"
+CamGated == (done /\ D \cap {"ecad", "ecad-absent", "cardsec-key"} # {}) => camResult # "success"
 \* success always means shared keys with the chip
 Agreement == (done /\ termResult = "success") => (termSM = chipSM /\ chipCompleted)
 \* a status error at any step is a failure without session
